@@ -6,6 +6,22 @@ PROPS = ['C%02d' % i for i in range(1, 21)]
 BASELINE = "cd /repo && /venv/bin/python -m pytest -ra -q -p no:cacheprovider --timeout=900 --continue-on-collection-errors"
 
 CLAIMED = {
+ 'C05': dict(
+    category='proof',
+    text="Rocq theorem C05_schedule_independent: two finished runs of the solver model on the same catalogue that differ in attempt order "
+         "(arbitrary rank functions), in order/multiplicity of requested forms and fields, and in how inputs arrived (file vs prompt), "
+         "but end with equal input stores, schedule the same lines, hold the same value for every line and report the same verdict. "
+         "Proved via a declarative spec: stored values are well-founded derivations (invariant), every scheduled derivable line has its "
+         "value when the loop exits (terminal_complete), derivations are functional, and the scheduled set equals a schedule-free demand "
+         "closure DemS. Corollary C05_prompt_equals_file. Tie: model vs real solver traces under natural and random ranks; monitor "
+         "permutes attempt order (sort_keys substituted), request order, input-file order and the file/prompt split on generated and "
+         "real forms, comparing verdict, values, forms and all three diagnostics as sets.",
+    design_ref='DESIGN.md §3.2-3.4, §4 C05',
+    note="Equality of the three diagnostic sets and of the forms set is decided by the monitor (theorem covers scheduled set, values, verdict); "
+         "runs that abort are outside the theorem (which abort is reported first is order dependent); configparser parsing not modelled. "
+         "Print Assumptions: closed under the global context.",
+    technique='Rocq: soundness+completeness against a declarative well-founded spec (Derives/DemS), functional derivations; differential correspondence; metamorphic monitor',
+ ),
  'C06': dict(
     category='proof',
     text="Rocq theorems about the DependencyTracker model for EVERY history of add_unmet/meet/generator steps (C06_tracker_history_wf), "
@@ -27,7 +43,7 @@ CLAIMED = {
          "Tie: solver traces incl. the needed_by lists compared model vs code; monitor re-evaluates quoted lines at prompt time and "
          "replays solve -> write back -> solve (no prompt, identical result, unread inputs droppable) on generated and real forms.",
     design_ref='DESIGN.md §4 C13',
-    note="Trusted as for C01; 'identical solution on re-run' is decided by the monitor until the schedule-independence theorem (C05) lands.",
+    note="Trusted as for C01; C13_rerun_quiet is stated for a re-run whose user would refuse every question (so 'asks nothing' is forced); Print Assumptions: closed.",
     technique='Rocq inductive invariant over the prompt transcript + differential correspondence + write-back replays',
  ),
  'C20': dict(
